@@ -171,6 +171,8 @@ extern "C" {
         const int32_t parsing_failed = -3;
         const int32_t result_ok = 0;
         auto result = dllexports::with_instance_do(instance, [&](dllexports::instance& ref) -> int32_t {
+            // Loading a config has no call data, do not reuse the one of an earlier sqfvm_call
+            ref.logger->call_data = nullptr;
             auto ppedStr = ref.runtime->parser_preprocessor().preprocess(
                 *ref.runtime, std::string_view(contents, length), { "dllexports"sv, {} });
 
